@@ -238,6 +238,10 @@ OBJS = {
     "tokens_color": (lambda: me.Tokens(code_or_color=me.Color.GREEN, req=""), "m_edge.Tokens"),
     "blobs": (lambda: me.Blobs(blob=b"hello", hexes=[b"\x01\x02", b""], num_or_hex=b"\xab\xcd", key=b"k", value=b"\xff"), "m_edge.Blobs"),
     "blobs_num": (lambda: me.Blobs(num_or_hex=12), "m_edge.Blobs"),
+    "rated": (lambda: me.Rated(rate=me.Rate.LOW, rates=[me.Rate.HIGH, me.Rate.NONE], amount=Decimal("12.50")), "m_edge.Rated"),
+    "onewild_obj": (lambda: me.OneWild(head="h", single=me.GlobalThing(w=1), tail=2), "m_edge.OneWild"),
+    "onewild_any": (lambda: me.OneWild(single=AnyElement(qname="{urn:o}free", text="t", attributes={"a": "1"})), "m_edge.OneWild"),
+    "onewild_derived": (lambda: me.OneWild(single=DerivedElement(qname="{urn:e}other", value=me.Slotted(id=4), type="{urn:e}slotted")), "m_edge.OneWild"),
     "attrmix": (lambda: me.AttrMix(id="i", lang="en", space="preserve", qualified=4, rest={"{urn:o}x": "1", "plain": "p"}, value=7), "m_edge.AttrMix"),
 }
 # late modules an object needs registered before it can be touched
@@ -391,6 +395,9 @@ _x("hw_tokens", "m_edge.Tokens", """<tokens xmlns="urn:e" colorAttr=" green  red
 _x("hw_tokens_color", "m_edge.Tokens", """<tokens xmlns="urn:e" req=""><either>dark red</either></tokens>""")
 _x("hw_blobs", "m_edge.Blobs", """<blobs xmlns="urn:e" key="aw=="><blob>aGVs\nbG8=</blob><hex>0102</hex><hex/><hex>abCD</hex><numOrHex>ABCD</numOrHex></blobs>""")
 _x("hw_blobs_num", "m_edge.Blobs", """<blobs xmlns="urn:e"><numOrHex>12</numOrHex></blobs>""")
+_x("hw_rated", "m_edge.Rated", """<rated xmlns="urn:e" rates="2 0.0 1.50" scale="1.00"><rate>1.5</rate><amount>-0</amount><unit>2.50</unit></rated>""")
+_x("hw_onewild", "m_edge.OneWild", """<e:oneWild xmlns:e="urn:e"><e:head>h</e:head><e:thing><e:w>1</e:w></e:thing><e:tail>2</e:tail></e:oneWild>""")
+_x("hw_onewild_two", "m_edge.OneWild", """<e:oneWild xmlns:e="urn:e"><e:slotted id="1"/><e:thing><e:w>1</e:w></e:thing><free>x</free></e:oneWild>""")
 _x("hw_attrmix", "m_edge.AttrMix", """<e:attrMix xmlns:e="urn:e" xmlns:o="urn:o" id="i" xml:lang="en" xml:space="preserve" e:qualified="4" o:x="1" plain="p"> 7 </e:attrMix>""")
 _x("hw_item_constructs", "m_basic.Item", """<?xml version="1.0"?><!DOCTYPE item [<!ENTITY nm "entity name">]><?pi before?><!-- c --><item xmlns="urn:basic" id="&#49;" xml:lang="en"><?pi inside?><name>&nm; <![CDATA[<cdata>]]> &amp;<!-- in text --> end</name><qty><![CDATA[2]]></qty></item><!-- after --><?pi after?>""")
 _x("hw_item_rebound", "m_basic.Item", """<p:item xmlns:p="urn:basic" id="1"><p:name xmlns:p="urn:basic">n</p:name><q:qty xmlns:q="urn:basic">2</q:qty><p:ref xmlns:p="urn:other" xmlns:b="urn:basic">p:val</p:ref></p:item>""")
@@ -449,6 +456,7 @@ JSON = {
     "js_holder": ('{"local": {"v": "lv"}, "thing": {"w": 2}, "anything": {"w": 3}, "more": [1, "s", {"w": 4}, {"v": "x"}]}', "m_edge.Holder", None),
     "js_tokens": ('{"colors": ["red", "blue"], "row": [[1, 2], [], [30]], "colorAttr": ["green"], "ids": ["i1", "i1"], "one": "red", "either": 30, "req": "r"}', "m_edge.Tokens", None),
     "js_blobs": ('{"blob": "aGVsbG8=", "hex": ["0102", ""], "numOrHex": "ABCD", "key": "aw==", "value": "FF"}', "m_edge.Blobs", None),
+    "js_rated": ('{"rate": "1.5", "rates": ["2", "0"], "amount": "12.50", "scale": "1.0", "unit": 2.5}', "m_edge.Rated", None),
     "js_attrmix": ('{"id": "i", "lang": "en", "space": null, "qualified": 4, "rest": {"{urn:o}x": "1", "plain": "p"}, "value": 7}', "m_edge.AttrMix", None),
     "js_noclass_thing_w": ('{"w": 5}', None, None),
     "js_noclass_thing_v": ('{"v": "only the local type has this"}', None, None),
